@@ -14,27 +14,34 @@ EXPLANATION = (
     'director-owned futures. Symbolic integers: the order in which the futures are resolved (index into N!), per '
     'resolution value-or-exception, per resolution how far the loop is drained before the next one (none / until '
     'quiescent / one tick in thorough), and the workers\' result values. Concrete per condition: mode, parallelism P in '
-    '{1,2}, whether the caller holds a permit of the semaphore (the nested use the code is written for) or not (the '
-    'top-level use, e.g. bounded_gather()). Bounds: quick N=3; thorough N=3 with one-tick drains and N=4 for the '
+    '{1,2}, whether the caller holds a permit of the semaphore and calls bounded_gather2_* / '
+    'OnlineBoundedGather2 (the nested use they are written for) or is a top-level caller going through '
+    'bounded_gather(parallelism=P). Bounds: quick N=3; thorough N=3 with one-tick drains and N=4 for the '
     'permit-holding P=2 configurations. Each future is resolved exactly once; outer cancellation of the gather call is '
-    'not explored. Oracle, from instrumentation inside the workers: at most P workers inside their body at once (and '
-    'the weaker P+1), results in submission order, return_exceptions puts every exception object in place, otherwise '
-    'the first exception a worker raised is the one propagated, no worker task pending when the call returns (normal '
-    'return, return_exceptions, cancel_on_error=True, OnlineBoundedGather2 exit), the call returns once all futures '
+    'not explored. Oracle, from instrumentation inside the workers: at most P workers inside their body at once, both '
+    'while the call runs and among the workers that go on after a raise-mode call has raised (and the weaker P+1), results in submission order, return_exceptions puts every exception object in place, otherwise '
+    'the first exception a worker raised is the one propagated, no task created by the call pending when it returns and '
+    'no uncancelled worker body active at or after that moment (normal return, return_exceptions, cancel_on_error=True, '
+    'OnlineBoundedGather2 exit), the call returns once all futures '
     'are resolved, and the semaphore holds afterwards what it held before. A refuted condition is replayed on plain '
     'asyncio semantics of the same harness, classified by violated aspect, and re-run with those aspects excused until '
     'CrossHair reports "Confirmed over all paths" for the rest.'
 )
 SRC = 'hail/python/hailtop/utils/utils.py'
-FUNCS = ('bounded_gather2_return_exceptions', 'bounded_gather2_raise_exceptions', 'bounded_gather2', 'bounded_gather')
+FUNCS = ('bounded_gather2_return_exceptions', 'bounded_gather2_raise_exceptions', 'bounded_gather2', 'bounded_gather')  # all reached by the harness
 CLASSES = ('WithoutSemaphore', 'OnlineBoundedGather2')
 
 
 def finding_class(H, bit, mode, holder):
-    name = H.ASPECTS[bit]
-    if bit in (H.A_BOUND, H.A_BOUND1):
-        return f'{name}[{"permit-holding" if holder else "top-level"} caller]'
-    return f'{name}[{mode}]'
+    """stable names; KNOWN_FINDINGS.jsonl is keyed by them"""
+    if bit == H.A_BOUND:
+        return ('parallelism-bound-exceeded-during-call[permit-holding caller]' if holder
+                else 'parallelism-bound-exceeded[top-level caller]')
+    if bit == H.A_BOUND_AFTER:
+        # workers that keep running after a failed raise-mode gather: the caller (bounded_gather itself in the
+        # top-level configurations) holds a permit, releases it on the way out, and WithoutSemaphore left one extra
+        return 'parallelism-bound-exceeded[permit-holding caller]'
+    return f'{H.ASPECTS[bit]}[{mode}]'
 
 
 def configs(tier):
@@ -48,7 +55,6 @@ def configs(tier):
     if tier == 'thorough':
         for mode in ('ret', 'raise', 'cancel'):
             out.append((mode, False, 2, 3))
-        out.append(('online', False, 1, 3))
         for mode in ('ret', 'raise', 'cancel', 'online'):
             out.append((mode, True, 2, 4))
     return out
@@ -66,12 +72,16 @@ def run(R):
                 'parallelism_P': '1..2', 'resolutions': 'each worker future resolved exactly once, any order',
                 'drain_choices': 'none / until quiescent' + ('' if quick else ' / exactly one tick (N=3)'),
                 'modes': 'return_exceptions, raise, raise+cancel_on_error, OnlineBoundedGather2(call x N, wait, exit)',
-                'caller': 'holds one permit (nested use) / holds none (top-level use)'}
+                'caller': 'holds one permit and calls bounded_gather2_* / OnlineBoundedGather2; or top-level via bounded_gather(parallelism=P)'}
     R.assume(
         'the event loop is asyncio.BaseEventLoop (real call_soon/_run_once/Task/Future machinery) with a null selector '
         'and a constant clock; the code under test uses neither timers nor I/O',
         'workers are harness coroutines that count themselves in and out, await a director-owned future and record '
         'cancellation / the order in which they raise; "first exception raised" is taken from that record',
+        'bounded_gather2_* and OnlineBoundedGather2 are only called by a coroutine that holds one permit of the semaphore '
+        '(their WithoutSemaphore releases one); a direct call from a coroutine that holds none (e.g. '
+        'hailtop/fs/router_fs.py _async_ls) admits P+1 workers and is outside the claim',
+        'OnlineBoundedGather2 script: call() for every worker, wait() for the first task only, then leave the context',
         'outer cancellation of the gather call, PoolShutdownError on late OnlineBoundedGather2.call, and more than 4 '
         'workers are outside the explored space',
         'a condition refuted by CrossHair is re-run with the violated aspects excused for that configuration, so a '
